@@ -353,7 +353,11 @@ def run(ctx):
         sig = signature_of(row, consts)
         if sig and ((set(sig[0] or []) | {sig[2]} | ({sig[1]} if sig[1] else set())) & INT_IDS):
             int_rows.append(row)
-    return [r, rule_errpath(facts, db, int_rows), rule_errstate(facts), rule_decfit(facts)]
+    from .c18 import rule_elide
+    # decimal + - and comparisons bring both operands to the common decimal type; the kernel then adds the raw integers.
+    # An operand that keeps a different scale is added as if it had the common scale: a silently wrong sum.
+    deccast = rule_elide(facts, rule="C12-DECCAST", only=lambda fid: "::functions::" in fid, floor=6)
+    return [r, rule_errpath(facts, db, int_rows), rule_errstate(facts), rule_decfit(facts), deccast]
 
 
 CLAIM = {
